@@ -102,6 +102,7 @@ func c10Alphabet(full bool) []qop {
 		{Op: "Q", Kind: "named", Name: "b", Size: 2, Fill: 'b'},
 		{Op: "Q", Kind: "plain", Name: "g1", Size: 2, Fill: 'p'},
 		{Op: "Q", Kind: "plain", Name: "g2", Size: 2, Fill: 'q'},
+		{Op: "Q", Kind: "named", Name: "", Size: 2, Fill: 'e'}, // a subject whose name is the empty string, next to nameless broadcasts
 		{Op: "G", Ov: 0, Lim: 2},
 		{Op: "G", Ov: 0, Lim: 100},
 		{Op: "G", Ov: 2, Lim: 4},
@@ -114,7 +115,6 @@ func c10Alphabet(full bool) []qop {
 	}
 	if full {
 		a = append(a,
-			qop{Op: "Q", Kind: "named", Name: "", Size: 2, Fill: 'e'},
 			qop{Op: "Q", Kind: "named", Name: "", Size: 3, Fill: 'E'},
 			qop{Op: "Q", Kind: "plain", Name: "g1", Size: 3, Fill: 'P'},
 			qop{Op: "Q", Kind: "unique", Size: 1, Fill: 'w'},
